@@ -39,3 +39,21 @@ Theorem c09_every_written_field_is_accounted_for :
   covered written_during_processing start_page_resets parse_prologue_resets justified = true.
 Proof. vm_compute. reflexivity. Qed.
 Print Assumptions c09_every_written_field_is_accounted_for.
+
+(* Memoised functions are state too.  In the CURRENT source the only one is get_page, whose result depends on its arguments
+   and on the pages table only, and every function that writes that table clears it (add_page, analyze_templates) or is a
+   helper called only from one that does (set_template_pre_expand).  A new memoised function - e.g. one keyed by a value
+   that is only unique within a page - or a new writer of the pages table that forgets to clear makes this theorem fail. *)
+Definition justified_memo : list string := ["get_page"].
+
+Theorem c09_every_memoised_function_is_accounted_for :
+  memo_covered memoised_functions store_writers cache_clears writer_calls justified_memo = true.
+Proof. vm_compute. reflexivity. Qed.
+Print Assumptions c09_every_memoised_function_is_accounted_for.
+
+Example c09_memo_rule_rejects :   (* a memo that nobody clears, a writer that does not clear, an unlisted memo *)
+  memo_covered ["get_page"] ["add_page"] [] [] ["get_page"] = false /\
+  memo_covered ["get_page"] ["add_page"; "w2"] ["add_page>get_page"] ["x>add_page"] ["get_page"] = false /\
+  memo_covered ["get_page"; "_nowiki_text"] ["add_page"] ["add_page>get_page"; "add_page>_nowiki_text"] [] ["get_page"] = false /\
+  memo_covered ["get_page"] ["add_page"; "h"] ["add_page>get_page"] ["add_page>h"] ["get_page"] = true.
+Proof. vm_compute. repeat split. Qed.
